@@ -89,6 +89,10 @@ inductive Stmt
   | raise                                           -- raise Boom()            (an Exception)
   | raiseBase                                       -- raise BoomBase()        (a BaseException only)
   | try_ (body : List Stmt)                         -- try: body / except Exception: pass
+  /-- statements run on *another* object (a second instance of the class, whose callbacks never touch this
+  one), each under its own try/except: nothing of this object is involved.  `k` names the statement list;
+  the driver replays the lists, in the order the log shows them, on a second, independent world. -/
+  | other (k : Nat)
   deriving Repr
 
 /-- static part: bounds per parameter and the callback programs -/
@@ -305,6 +309,7 @@ def run (c : Cfg) : Nat → Call → World → Res × World × List Item
     | .stmt (.unwatch wid) =>
       (.ok, { w with regs := w.regs.filter (fun x => x.id ≠ wid) },
         [.stmt "unwatch" wid 0 0 w.batch w.trigger [] [] .ok])
+    | .stmt (.other k) => (.ok, w, [.stmt "other" k 0 0 w.batch w.trigger [] [] .ok])
     | .stmt .raise => (.raised .boom, w, [])
     | .stmt .raiseBase => (.raised .base, w, [])
     | .stmt (.try_ body) =>
